@@ -31,13 +31,16 @@ FIRST = {
     "C04-E": "missed (C10, C12 caught)", "C04-F": "missed", "C08-E": "caught", "C08-F": "missed (C18 caught)", "C09-E": "caught", "C09-F": "caught",
     "C11-E": "missed (C17 caught, C03 exit 2)", "C11-F": "missed (C07 caught)", "C15-E": "caught", "C15-F": "caught", "C16-E": "exit 2 (C18 caught)", "C16-F": "caught",
     "C17-E": "caught", "C17-F": "caught", "C20-E": "missed", "C20-F": "exit 2",
+    # seventh wave (session 4)
+    "C02-G": "caught", "C02-H": "missed", "C03-G": "caught", "C03-H": "caught", "C06-E": "caught", "C06-F": "missed (same construct as the known finding)",
+    "C11-G": "caught", "C14-E": "caught", "C14-F": "caught", "C18-E": "caught", "C18-F": "caught", "C19-E": "caught", "C20-G": "missed", "C20-H": "missed",
 }
 
 
 def main() -> int:
     rows = {}
     for line in open(os.path.join(VERIF, "seeded", "RESULTS.md")):
-        m = re.match(r"\| (C\d\d-[A-F]) \| (C\d\d) \| ([^|]+) \| ([^|]*) \| (.*) \|$", line.rstrip())
+        m = re.match(r"\| (C\d\d-[A-H]) \| (C\d\d) \| ([^|]+) \| ([^|]*) \| (.*) \|$", line.rstrip())
         if m:
             rows[m.group(1)] = m.groups()
     print("| change | what was changed (one line) | needs | first run | now: rule(s) of the own check | also reported by |")
